@@ -1,0 +1,18 @@
+//go:build verif
+
+package ctlcmd
+
+import (
+	"github.com/jessevdk/go-flags"
+)
+
+// verifCommandHandler, when set by a verification harness, replaces the
+// go-flags command handler so that the harness can observe which command
+// the parser decided to execute for a given argument vector.
+var verifCommandHandler func(command flags.Commander, args []string) error
+
+// SetVerifCommandHandler installs (or with nil removes) the verification
+// command handler. Only available in builds with the "verif" tag.
+func SetVerifCommandHandler(f func(command flags.Commander, args []string) error) {
+	verifCommandHandler = f
+}
